@@ -25,7 +25,7 @@ LEVEL = ('Structural proof of the placement clauses of the factory contract for 
          'Strongest level a static argument reaches here; the contract is about where one call sits.')
 LEVEL_NOTE = ('Trusts clang 14 AST and the sa/ library; RAII guards only (raw lock/unlock is reported); '
               'finding F1 (load outside the lock) is a recorded known finding.')
-TECHNIQUE = 'call-graph reachability + RAII lock-region + dominator/post-dominator analysis over clang AST'
+TECHNIQUE = 'call-graph reachability + RAII lock-region + dominator/post-dominator analysis + name-identity along the chain, over clang AST'
 
 
 def factory_refs(ctx):
